@@ -228,7 +228,10 @@ func codecGrid(c *Ctx) []codecIn {
 		k := 1 + r.Intn(4)
 		var gs []gJ
 		for j := 0; j < k; j++ {
-			n := 1 + r.Intn(6)
+			n := r.Intn(7) // 0..6: records of graphs on 0 and 1 vertices have no terminating zeros
+			if i%5 == 0 && j%2 == 0 {
+				n = 0
+			}
 			gs = append(gs, randGraphJ(r, n, 0.5))
 		}
 		add(codecIn{Codec: "mcmulti", Gs: gs})
